@@ -1674,6 +1674,34 @@ def m_softmax(it, t, dim=None, **kw):
     return softmax_along(it, t, dim)
 
 
+# torch.distributions.Bernoulli(probs).log_prob(x): the library's log-density, an uninterpreted function of (x, p) applied entry-wise
+# with broadcasting (its closed form x log p + (1 - x) log(1 - p) with clamped p is the library's business: C08 stand-in)
+F_BERN_LOGP = ufun("bernoulli_log_prob", R, R, R)
+
+
+class SBernoulli(Symbolic):
+    def __init__(self, probs):
+        self.probs = probs
+
+    def _getattr(self, it, name, node=None):
+        if name == "log_prob":
+            def log_prob(it_, x):
+                xt, pt = as_tensor(it_, x).as_num(), self.probs.as_num()
+                shape, pa, pb = broadcast_shapes(it_, xt.shape_, pt.shape_, node)
+                return STensor(shape, lambda idx: F_BERN_LOGP(xt.fn(_op_idx(idx, xt.shape_, pa)), pt.fn(_op_idx(idx, pt.shape_, pb))), "real")
+            return SymCallable(log_prob, "Bernoulli.log_prob")
+        if name in ("probs", "mean"):
+            return self.probs
+        raise OutOfSubset(f"Bernoulli.{name}", node)
+
+
+@model(torch.distributions.Bernoulli)
+def m_bernoulli(it, probs=None, logits=None, validate_args=None):
+    if probs is None:
+        raise OutOfSubset("Bernoulli(logits=...)")
+    return SBernoulli(as_tensor(it, probs))
+
+
 @model(torch.where)
 def m_where(it, c, a, b):
     c = as_tensor(it, c)
